@@ -26,15 +26,16 @@ func TestVerifUDPReal(t *testing.T) { //nolint:cyclop,gocognit
 		if len(sc.Clients) != 1 {
 			return
 		}
-		for _, batch := range []bool{false, true} {
-			runReal(t, tr, sc, batch)
+		for v := 0; v < 3; v++ {
+			// v == 2: batch mode with an undeliverable datagram left in the write batch when everything is closed
+			runReal(t, tr, sc, v > 0, v == 2)
 			k++
 		}
 	})
 	t.Logf("histories=%d events=%d", k, tr.N)
 }
 
-func runReal(t *testing.T, tr *vrt.Tracer, sc udpScenario, batch bool) { //nolint:cyclop,gocognit
+func runReal(t *testing.T, tr *vrt.Tracer, sc udpScenario, batch, poison bool) { //nolint:cyclop,gocognit
 	t.Helper()
 	{
 		lc := ListenConfig{Backlog: 2, AcceptFilter: func(b []byte) bool { return len(b) > 4 && b[4] == 1 }}
@@ -147,12 +148,29 @@ func runReal(t *testing.T, tr *vrt.Tracer, sc udpScenario, batch bool) { //nolin
 			_ = probe.Close()
 		}
 		tr.Emit(vrt.M{"ev": "quiesce", "blocked": blocked, "sock": sockOpen, "leaked": 0, "sched": []int{}})
-		_ = ln.Close()
-		for _, c := range handles {
-			_ = c.Close()
+		if poison { // queued and too large to be sent: the flush when the last reference goes fails
+			for _, c := range handles {
+				_, _ = c.Write(make([]byte, 70000))
+
+				break
+			}
 		}
+		cleaned := within(func() {
+			_ = ln.Close()
+			for _, c := range handles {
+				_ = c.Close()
+			}
+		})
 		for _, rs := range remotes {
 			_ = rs.Close()
+		}
+		if !cleaned {
+			// closing everything does not return: recorded as a Close call that stays blocked
+			tr.Emit(vrt.M{"ev": "reset", "scenario": sc.Name + "/real/after-cleanup", "batch": lc.Batch.Enable})
+			tr.Emit(vrt.M{"ev": "call", "p": 1, "op": "lclose", "h": 0})
+			tr.Emit(vrt.M{"ev": "quiesce", "blocked": []int{1}, "sock": true, "leaked": 1, "sched": []int{}})
+			tr.Close()
+			panic("verif: a Close call of the listener or of a connection does not return (recorded)")
 		}
 	}
 }
